@@ -3,6 +3,7 @@ package chk
 import (
 	"bytes"
 	"fmt"
+	"github.com/ipfs/go-cid"
 	"testing"
 
 	"github.com/libp2p/go-libp2p/core/peer"
@@ -355,6 +356,14 @@ func TestC05Restart(t *testing.T) {
 		case 0:
 		case 1:
 			rcid, desc = gen.Cid(r), "base-cid"
+			if r.Intn(2) == 0 {
+				// the same multihash under another codec / CID version: a different root, not the original base CID
+				codec := uint64(cid.Raw)
+				if dummyCid.Prefix().Codec == cid.Raw {
+					codec = cid.DagCBOR
+				}
+				rcid, desc = cid.NewCidV1(codec, dummyCid.Hash()), "base-cid-same-multihash"
+			}
 		case 2:
 			rv.Type, desc = datatransfer.TypeIdentifier(gen.Pick(r, regTypes)+"x"), "voucher-type"
 			if r.Intn(2) == 0 {
